@@ -141,7 +141,7 @@ pub fn run(ctx: &Arc<Ctx>) {
         }
         Err(e) => ctx.machinery_error(format!("missing corpus/sm3.json: {}", e)),
     }
-    let lmax = ctx.tier.pick(1100usize, 4096);
+    let lmax = ctx.tier.pick(1100usize, 12000);
     ctx.set_rule("every length 0..=Lmax x 5 content classes; every single-bit-set message of 55/56/63/64/192 bytes; k*64+{-9,-8,-1,0,1} for k=1..=40; 2^k+{-1,0,1} bytes for k=13..=22 (thorough 26) and lengths whose bit length has distinct non-zero bytes, up to one message of 0x20406081 bytes (bit length 0x0102030408); messages passed as slices at byte offsets 1..7 of an aligned buffer; every value of the last byte at 8 lengths; all call sequences of length <=3 over 6 messages (purity). A case is distinct by (kind, length, content/bit). Oracle: independent streaming SM3.");
     ctx.note_bound(format!("Lmax={}", lmax));
     let mut cases: Vec<Case> = Vec::new();
@@ -183,7 +183,7 @@ pub fn run(ctx: &Arc<Ctx>) {
 
     // every byte of the 64-bit length field that a message in memory can reach: powers of two and their neighbours,
     // and lengths whose bit length has pairwise distinct non-zero bytes (a swapped or dropped byte shows)
-    let kmax = ctx.tier.pick(22usize, 26);
+    let kmax = ctx.tier.pick(22usize, 27);
     let mut long: Vec<Case> = Vec::new();
     for k in 13..=kmax {
         for d in [-1i64, 0, 1] {
@@ -213,7 +213,7 @@ pub fn run(ctx: &Arc<Ctx>) {
     ctx.sample(serde_json::to_value(&c).unwrap());
 
     // E1: purity — every call's digest is that of its message alone, whatever preceded it
-    let depth = ctx.tier.pick(3usize, 4);
+    let depth = ctx.tier.pick(3usize, 5);
     let c2 = ctx.clone();
     let model = HistModel {
         batch: 64,
